@@ -451,13 +451,29 @@ class Obligation:
             # prefer a counterexample that can be replayed: small payloads, no knife-edge instants
             margins = ex.env.get('replay_margins')
             extra = margins(ex) if margins else []
+            extra2 = []
+            if margins:
+                try:
+                    extra2 = margins(ex, gap=2 * 10**9)     # a violation may need an instant closer than a minute to "now"
+                except TypeError:
+                    extra2 = []
             if extra and ex.solver.check(zbool(neg), *(small + extra)) == z3.sat:
+                m = ex.solver.model()
+            elif extra2 and ex.solver.check(zbool(neg), *(small + extra2)) == z3.sat:
                 m = ex.solver.model()
             elif ex.solver.check(zbool(neg), *small) == z3.sat:
                 m = ex.solver.model()
             else:
-                # the preferences cannot be met: keep the solver's own counterexample
-                ex.solver.check(zbool(neg))
+                # the preferences cannot all be met: keep greedily as many as are consistent (bounded effort), then the margins if possible
+                kept = []
+                for c in small[:40]:
+                    if ex.solver.check(zbool(neg), *(kept + [c])) == z3.sat:
+                        kept.append(c)
+                for ext in (extra, extra2):
+                    if ext and ex.solver.check(zbool(neg), *(kept + ext)) == z3.sat:
+                        kept = kept + ext
+                        break
+                ex.solver.check(zbool(neg), *kept)
                 m = ex.solver.model()
         desc = describe(m) if describe else {'model': str(m)[:2000]}
         # known findings: a finding is identified by (property, obligation prefix, label prefix, optional predicate id)
